@@ -196,7 +196,7 @@ TECH_ADD = {"C03": "; origin analysis of the point-cloud index array (identity f
 ADDED = {
  "C01": "Added in round 2: OWN-6 (no store through a *Material obtained from a mesh), OWN-7 (no Mesh assigned through a *Mesh handle the function did not create); results of external generic calls are classified (slices.Grow & co. alias their argument; an unclassified non-parameter operand is UNDECIDED). Added in the last rounds: OWN-6 follows by-value copies of a material that still hold its pointers; OWN-2 traces hand-offs through the returns of analysed callees and through maps kept in package variables (a slice kept in a package variable is not the caller's own: appending to it and handing it to a mesh is reported; adding an entry to the cache is not).",
  "C02": "Added in round 2: GEN-BOUND is path-sensitive (one candidate interval per phi edge, counters narrowed by == / != guards, case split over boolean parameters, enclosing loops assumed to run) with interprocedural slice lengths; FAM-3 (the four families' new arrays are made with one length); GEN-LEN conditional growth (an array that can skip an element inside its loop next to a sibling with a fixed count); IDX-6 (a vertex id is never offset by a constant). Added in the last rounds: ORD-2 over the mesh operations and generators (no closure or pointer keeps a per-loop variable beyond its iteration under the pre-1.22 loop semantics go.mod selects), ITER-1 (no accessor iterator is drained with Next() across repetitions without Reset; zero instances on the tree, positive control on every run), FILL-1 through function literals with a floor of two fills, GEN-LEN for arrays grown by a function literal through a captured variable (elements per call x calls). Added in round 6: GRP-1 (an operation that hands input.SetIndices(x) back keeps or drops whole primitives: the indices one keep decision appends, times the trip counts of the counted loops below the decision, are a multiple of the group size of every polygon-list topology the operation admits - all of them unless a used RequireTopology dominates the hand-off; group sizes are read by interpreting Topology.IndexSize; found and fixed: the four attribute filters, /repo 9279a92), PAIR-3 (every return of the attribute-combining helper of Append is dominated by a range over each of the two operands' attribute maps, or lies behind len(operand) == 0). Stated limit: a generator whose vertex rings and index rows range over different slices of one path (seed C02-r61) - the ring count comes from a callee's result length and a phi of two slices, which GEN-BOUND does not follow.",
- "C03": "Added in round 2: NEIGH-5/6, CROP-1/2, RENUM-1, DEGEN-1 (weld keeps a triangle exactly when its three rounded corners differ: five equality patterns), SPLIT-1 (the accumulator a primitive is appended to is current for the range cursor on every path), AREA-1 (RemoveNullFaces3D keeps exactly area > minArea with area = 1/2 |cross| as an identity), SHAPE-4 refuses spawned element loops whose partition is not decided, IDX-6. Added in the last rounds: NEIGH-7 (the vertex neighbour table links per topology: list topologies advance by their group size and link inside one group, strip / loop topologies link consecutive indices), FILL-1 (shared with C02), neighbour operations that delegate to a shared implementation are judged through it with hand-over obligations, CROP-1/2 follow keep helpers. Added in round 6: PC-1 (the index array of the mesh ToPointCloud builds is the identity over AttributeLength on every path: made with that length and filled with i at i, or grown from empty by appending the loop counter, same-package helpers followed; the receiver's own index buffer reaching the field is reported).",
+ "C03": "Added in round 2: NEIGH-5/6, CROP-1/2, RENUM-1, DEGEN-1 (weld keeps a triangle exactly when its three rounded corners differ: five equality patterns), SPLIT-1 (the accumulator a primitive is appended to is current for the range cursor on every path), AREA-1 (RemoveNullFaces3D keeps exactly area > minArea with area = 1/2 |cross| as an identity), SHAPE-4 refuses spawned element loops whose partition is not decided, IDX-6. Added in the last rounds: NEIGH-7 (the vertex neighbour table links per topology: list topologies advance by their group size and link inside one group, strip / loop topologies link consecutive indices), FILL-1 (shared with C02), neighbour operations that delegate to a shared implementation are judged through it with hand-over obligations, CROP-1/2 follow keep helpers. Added in round 6: PC-1 (the index array of the mesh ToPointCloud builds is the identity over AttributeLength on every path: made with that length and filled with i at i, or grown from empty by appending the loop counter, same-package helpers followed; the receiver's own index buffer reaching the field is reported). NEIGH-8 (a division by VertexLUT.Count(v) - the neighbour mean of the smoothing operations - is dominated by the non-zero edge of a test of that same count: a vertex without neighbours stays where it is; found and fixed: Laplacian smoothing turned unreferenced vertices into NaN, /repo 4845882), SPLIT-2 (the material cursor of the split advances in a loop nested in the primitive loop, or is the counter of a per-range loop - never by one conditional step per primitive, which does not skip an empty range; found and fixed, /repo 87df0fb). IDX: a position plus an untyped counter stays a position, a counter compared as counter + invariant offset with a length is typed by it, IDX-2 follows index arrays returned by same-package helpers.",
  "C04": "Added in round 2: UNW-1, CFG-1, NAME-1 (property names travel unchanged in both directions), LAY-4 for every reader builder (offset = sum of the sizes of the preceding properties), REC-1 generalised to batched reads (slot = number of records consumed before this one), SENT-1. Added in the last round: CLAIM-1 identifies the claimed set by role through struct fields and same-package helpers.",
  "C05": "Added in round 2: FORM-1 through selection helpers, ORD-2 over formats/obj, MAT-3 (material identity per name), ENTRY-1 (txt.Writer record typestate), SINK-1 (one sink once a buffering wrapper exists, flushed before return), NAME-2 (names travel whole), MAT-4 (the material range list is positional: patched in place or copied entry for entry). Added in the last round: TOK-R summarises same-package helpers with parameter binding of the token piece.",
  "C06": "Added in round 2: DEDUP-2, REF-2 (every index slot receives a position of the array it refers to, never a loop counter over input data), MINMAX-1 start values and comparison form, INST-1 (instancing extension emitted exactly for n >= 1 with every instance's TRS), EQ-1 (de-dup equality methods compare every field that reaches the document and distinguish nil on both sides: truth table per pointer field). Added in the last rounds: MODE-1 (a primitive's mode follows the mesh topology on cache-hit and cache-miss paths alike), TRS-1 (node translation / rotation / scale reach the document through copies only), INST-2 (a flag that omits an instancing attribute is monotone over the instance loop); REF-2 follows helper returns, EQ-1 executes generic helpers.",
